@@ -102,7 +102,7 @@ func c14Leaves(n int) []model.Event {
 
 func c14Families(tier string) []engine.Family {
 	targets := c14Targets(tier)
-	leaves := c14Leaves(tierPick(tier, 5, 9))
+	leaves := c14Leaves(5)
 	maxNodes := tierPick(tier, 4, 5)
 	hostile := []int{1, 1 << 16, 1 << 24, 1 << 31, 1 << 62, 1<<63 - 1}
 	kcLeaves := []model.Event{model.SInt(model.KInt8, -1), model.Str("a"), model.StrRef("r"), model.Nil(), model.Bool(true), model.F64(0x3fe0000000000000),
@@ -204,6 +204,20 @@ func c14Families(tier string) []engine.Family {
 				evs = byRefVariant(evs, true)
 			}
 			runPair(x, tg, evs, "pair:"+kindClass(tg.t), "all-pairs")
+		}},
+		{Name: "all-pairs-wide-alphabet", Arity: []int{len(targets), 9 + 4}, Body: func(x *engine.Exec) {
+			// thorough only: the 9-leaf alphabet (adds int64 min, empty string by value, uint64 max, NaN float32) at 4 nodes; the
+			// 5-node trees of the thorough tier stay on the 5-leaf alphabet (both together did not finish in 40 minutes)
+			if tier != "thorough" {
+				return
+			}
+			tg := targets[x.Choose(len(targets))]
+			t := gen.Tree(x, &gen.TreeOpts{MaxNodes: 4, Leaves: c14Leaves(9), Keys: []string{"a", "b"}})
+			evs := t.Events(nil)
+			if x.Bool() {
+				evs = byRefVariant(evs, true)
+			}
+			runPair(x, tg, evs, "pair:"+kindClass(tg.t), "all-pairs-wide-alphabet")
 		}},
 		{Name: "hostile-lengths", Arity: []int{len(targets)}, Body: func(x *engine.Exec) {
 			tg := targets[x.Choose(len(targets))]
